@@ -9,6 +9,10 @@
 //!                close <height> <item>…   claim <idx> <height> <net>   peer <idx> <height>   block <height>
 //!              each answered with the sorted balance classes; the implementation answer is node A's REAL
 //!              `get_claimable_balances` (class, height parameter, amount) after that block.
+//!              Further compared ops (Model/ClaimTime.lean): `preclose` (holder closes: the pre-confirmation ClaimableOnChannelClose view),
+//!              `goesany` (a sixth of the legacy scenarios are closed by the MONITORS THEMSELVES at an HTLC deadline: the height vs `firstOnchain`),
+//!              `release` (height of A's first broadcast of a timeout claim vs `requestIssueHeight`), `reissue` (a re-issue never comes before the
+//!              bump timer); `close <h> 2 ..` = the counterparty's commitment that confirmed is A's PREVIOUS unrevoked counterparty commitment.
 //!              Implementation oracles (no model): every broadcast of A verifies under libbitcoinconsensus against
 //!              the outputs it spends and is final at its broadcast height (nLockTime ≤ height, CSV satisfied), a
 //!              re-issued claim never pays less fee than the one it replaces, the balances drain, and
